@@ -95,12 +95,14 @@ class SigLC:
 def leaves(k, V, conc=None):
     a = list(conc) if conc is not None else [k.v("a%d" % i) for i in range(5)]
     return [("x1", lambda: V.leaf([(1, a[0])])), ("x2", lambda: V.leaf([(2, a[1])])),
-            ("x1x3", lambda: V.leaf([(1, a[2]), (3, a[3])])), ("one", lambda: V.leaf([(0, a[4])])), ("zero", lambda: V.zero())]
+            ("x1x3", lambda: V.leaf([(1, a[2]), (3, a[3])])), ("one", lambda: V.leaf([(0, a[4])])), ("zero", lambda: V.zero()),
+            # the same variables as x1x3, collected in the opposite order, with other coefficients
+            ("x3x1", lambda: V.leaf([(3, a[1]), (1, a[0])]))]
 
 
 def exprs(depth):
     """expression shapes as nested tuples over leaf indices 0..4: ('L',i) | ('neg',e) | ('mul',e) | ('add',e,f) | ('sub',e,f)"""
-    L = [("L", i) for i in range(5)]
+    L = [("L", i) for i in range(6)]
     d1 = [("neg", e) for e in L] + [("mul", e) for e in L] + [(o, e, f) for o in ("add", "sub") for e in L for f in L]
     if depth == 1:
         return d1
@@ -154,7 +156,7 @@ def run_algebra(k, kind, shapes, conc=None):
 
 def short(e):
     if e[0] == "L":
-        return ["x1", "x2", "x1x3", "one", "zero"][e[1]]
+        return ["x1", "x2", "x1x3", "one", "zero", "x3x1"][e[1]]
     if e[0] in ("neg", "mul"):
         return "%s(%s)" % (e[0], short(e[1]))
     return "%s(%s,%s)" % (e[0], short(e[1]), short(e[2]))
@@ -173,6 +175,26 @@ def run_inverse(k):
     obs.append(("fieldinverse result is reduced", (r >= 0) & (r < P)))
     obs.append(("x * fieldinverse(x) = 1 mod p (negative and unreduced x included)", ("cong", x * r, 1)))
     obs.append(("fieldinverse returns only for non-zero arguments", (x % P) != 0))
+    return obs
+
+
+def run_inverse_after_field_switch(k):
+    """the zkinterface base module serves three fields through set_modulus(): an inverse asked for under one field says
+    nothing about the same argument under another (plain integers; the module's own API is used to switch and switch back)"""
+    zb = k.env.rec
+    if not hasattr(zb, "set_modulus"):
+        return []
+    obs = []
+    p0 = zb.get_modulus()
+    primes = [CURVES["bn254"], CURVES["bls12-381"], CURVES["curve25519"]]
+    try:
+        for step, p in enumerate(primes + primes[:1]):
+            zb.set_modulus(p)
+            for v in (7, -3, 1 << 200):
+                obs.append(("after set_modulus (step %d): %s * fieldinverse(%s) = 1 modulo the field now in effect" % (step, v, v),
+                            (v * zb.fieldinverse(v)) % zb.get_modulus() == 1))
+    finally:
+        zb.set_modulus(p0)
     return obs
 
 
@@ -243,6 +265,7 @@ def build(n=4, tier="quick", backend="snarkjs"):
                                   (lambda k, kind=kind, ci=ci, part=shc[bi:bi + 100]: run_algebra(k, kind, part, conc=ci)),
                                   ("w1", "w2", "w3"), tags={"c13", kind, "concrete"}))
     ents.append(Entry("inverse", run_inverse, ("x",), tags={"c13", "inv"}))
+    ents.append(Entry("inverse_after_field_switch", run_inverse_after_field_switch, (), tags={"c13", "inv", "zkif"}))
     for m in (3, 5, 7, 13):
         ents.append(Entry("invert_small_%d" % m, (lambda k, m=m: run_invert_small(k, m)), ("x",),
                           assume=(lambda k: [(k.v("x") > -41) & (k.v("x") < 41)]), tags={"c13", "inv", "small"}))
